@@ -656,6 +656,7 @@ pub fn supervise(
     }
     // collect worker logs
     let mut cases = 0u64;
+    let mut per_sig: std::collections::BTreeMap<String, u64> = std::collections::BTreeMap::new();
     for (k, w) in ws.iter().enumerate() {
         let Ok(text) = std::fs::read_to_string(&w.log) else { continue };
         for line in text.lines() {
@@ -683,6 +684,14 @@ pub fn supervise(
                 }
                 Some("finding") => {
                     let idx = v["index"].as_u64().unwrap_or(0);
+                    // describing a case regenerates and serialises its document: do it for the first two cases of
+                    // a signature only, further ones are counted (a broken tree can fail thousands of cases)
+                    let n = per_sig.entry(v["signature"].as_str().unwrap_or("").to_string()).or_insert(0u64);
+                    *n += 1;
+                    if *n > 2 {
+                        out.add("findings_beyond_two_per_signature", 1);
+                        continue;
+                    }
                     out.finding(Finding {
                         signature: v["signature"].as_str().unwrap_or("").to_string(),
                         what: v["what"].as_str().unwrap_or("").to_string(),
